@@ -24,6 +24,18 @@ fn examples(c: &Corpus) -> Vec<Vec<(String, String)>> {
         .collect()
 }
 
+/// The observation prefix (before ` REWRITE `) that a parse returning exactly `exs` produces.
+pub fn expected_obs(exs: &[Vec<(String, String)>]) -> String {
+    let mut s = format!("ok {}", exs.len());
+    for ex in exs {
+        s.push_str(&format!(" {}", ex.len()));
+        for (a, b) in ex {
+            s.push_str(&format!(" {} {}", hex(a.as_bytes()), hex(b.as_bytes())));
+        }
+    }
+    s
+}
+
 pub fn obs(input: &[u8]) -> (String, String) {
     match guarded(|| Corpus::from_reader(input)) {
         None => ("panic".to_string(), "na".to_string()),
@@ -118,6 +130,40 @@ pub fn run(seed: u64, n: usize, out: &mut dyn Write) {
                 }
                 let (o, rt) = obs(&input);
                 writeln!(out, "corpus {id} parse {} IMPL {o} ## RT={rt} KIND=structured", hex(&input)).unwrap();
+            }
+            // well-formed examples written one after the other (as `Example::write` does), including sentences whose
+            // surfaces are all empty and token lines after the last EOS: the reader must return exactly the
+            // non-empty ones, in order (theorems empty_sentences_dropped, trailing_tokens_dropped)
+            7 => {
+                let surf: Vec<&str> = vec!["", "", "a", "bc", "あ", "EOS", " ", "😀", "x\r", "q,r"];
+                let feat: Vec<&str> = vec!["", "N,x", "EOS", "記号,空", "a b", "\"q\"", "*", "x\ry"];
+                let nex = rng.below(6);
+                let mut exs: Vec<Vec<(String, String)>> = vec![];
+                for _ in 0..nex {
+                    let nw = rng.below(4);
+                    let all_empty = rng.chance(1, 4);
+                    exs.push((0..nw).map(|_| {
+                        let s = if all_empty { "" } else { surf[rng.below(surf.len())] };
+                        (s.to_string(), feat[rng.below(feat.len())].to_string())
+                    }).collect());
+                }
+                let mut input: Vec<u8> = vec![];
+                for ex in &exs {
+                    for (s, f) in ex {
+                        input.extend_from_slice(format!("{s}\t{f}\n").as_bytes());
+                    }
+                    input.extend_from_slice(b"EOS\n");
+                }
+                if rng.chance(1, 3) {
+                    for _ in 0..1 + rng.below(2) {
+                        input.extend_from_slice(format!("{}\t{}\n", surf[rng.below(surf.len())], feat[rng.below(feat.len())]).as_bytes());
+                    }
+                }
+                let expect: Vec<Vec<(String, String)>> = exs.into_iter().filter(|e| e.iter().any(|(s, _)| !s.is_empty())).collect();
+                let (o, rt) = obs(&input);
+                let want = expected_obs(&expect);
+                let exp = o.split(" REWRITE ").next() == Some(want.as_str());
+                writeln!(out, "corpus {id} parse {} IMPL {o} ## RT={rt} KIND=examples EXP={} EXPECT={}", hex(&input), exp as u8, hex(want.as_bytes())).unwrap();
             }
             // real tokenizer output rendered as the CLI does (`-O mecab`), fed to the reader
             _ => {
